@@ -386,7 +386,7 @@ Proof.
     try assumption; try lia.
   - repeat split; cbn; lia.
   - cbn; lia.
-  - unfold pipe_run. repeat split; try assumption; lia.
+  - unfold pipe_run. split; [exact I|]. split; [exact S|]. split; lia.
 Qed.
 
 (* for EVERY behaviour of the decoder: the offending byte is never dropped, the line number is right, the
